@@ -4,7 +4,7 @@ import json
 
 from . import corpus, engine, k2, values
 
-POS = {'line_start', 'line_stop', 'column_start', 'column_stop'}
+POS = {'line_start', 'line_stop', 'column_start', 'column_stop', 'isLast'}     # positions, and the renderer's own bookkeeping flag
 
 
 def _strip(x):
@@ -52,6 +52,14 @@ def plain(node, seen=None):
     return repr(node)
 
 
+def _drop_key(x, key):
+    if isinstance(x, dict):
+        return {k: _drop_key(v, key) for k, v in x.items() if k != key}
+    if isinstance(x, list):
+        return [_drop_key(v, key) for v in x]
+    return x
+
+
 def items_of(ast):
     """AST -> the abstract items of VTLScripts (comments excluded)"""
     import vtlengine.AST as A
@@ -67,6 +75,7 @@ def items_of(ast):
             out.append({'kind': 'define', 'what': what, 'name': getattr(ch, 'op', None) or getattr(ch, 'name', ''), 'body': _digest(pl)})
             if isinstance(pl.get('rules'), list):       # the same definition with its rules as a set (used to name WHAT differs)
                 out[-1]['unordered'] = _digest(dict(pl, rules=sorted(json.dumps(r, sort_keys=True, default=str) for r in pl['rules'])))
+                out[-1]['nocond'] = _digest(_drop_key(pl, '_right_condition'))
     return out
 
 
@@ -132,7 +141,7 @@ def observe(arg):
             for us in (scheme.user_defined_operator_schemes or []):
                 for u in us.items:
                     defs += items_of(create_ast(u.operator_definition))
-            rec['scheme'] = {'transformations': trans, 'definitions': [{k: d[k] for k in ('what', 'name', 'body', 'unordered') if k in d} for d in defs]}
+            rec['scheme'] = {'transformations': trans, 'definitions': [{k: d[k] for k in ('what', 'name', 'body', 'unordered', 'nocond') if k in d} for d in defs]}
         except Exception as e:  # noqa
             c = k2.classify_exception(e)
             fail = 'generate_sdmx: %s %s %s' % (c['err'], c.get('code'), c['msg'][:200])
